@@ -48,6 +48,8 @@ func init() {
 // c11Other: a small valid graphic (its prefix without the last 3 bytes is invalid)
 var c11Other = append(append([]byte{}, gen.Magic...), 0x00, 0x05, 0x9b, 0x30, 0x66, 0x07, 0x80, 0xc0, 0x70, 0x90, 0x01, 0x84, 0x86, 0x88, 0x8a, 0xe3, 0x80, 0x7e, 0x40, 0x82, 0x84, 0xe1)
 
+var c11OtherText []byte
+
 type c11State struct {
 	rd  rec.Dest
 	hex []byte
@@ -165,10 +167,19 @@ func c11Check(w *mc.W, st *c11State, b []byte, unit string) {
 	// input) leave it as it was returned
 	if text != nil {
 		keep := append([]byte(nil), text...)
-		decode.Disassemble(c11Other)
+		other, oerr := decode.Disassemble(c11Other)
 		decode.Disassemble(c11Other[:len(c11Other)-3])
 		if !bytes.Equal(text, keep) {
 			fail("listing-overwritten", "the listing returned for this input was modified by later Disassemble calls on other inputs")
+			return
+		}
+		// ... and the listing of that other graphic is the same after whatever input (the first one
+		// obtained in this process is the reference; the listing itself is judged like any other when
+		// the enumeration reaches that graphic)
+		if c11OtherText == nil && oerr == nil {
+			c11OtherText = append([]byte{}, other...)
+		} else if oerr != nil || !bytes.Equal(other, c11OtherText) {
+			fail("listing-depends-on-previous-input", fmt.Sprintf("the listing of a fixed graphic obtained right after this input differs from the one obtained before (err %v)", oerr))
 			return
 		}
 	}
